@@ -407,9 +407,17 @@ def r6_equality_symmetry(ctx, sym):
            'float': float, 'int': int, 'str': str, 'bytes': bytes, 'list': list, 'tuple': tuple, 'set': set,
            'frozenset': frozenset, 'dict': dict}
 
+    from ..fdeval import module_resolver
+    fallback = module_resolver(sym, mod)
+
+    def resolve_name(name):
+        if name in env:
+            return env[name]
+        return fallback(name)
+
     def new_fd():
         fd = FD(max_steps=100000)
-        fd.resolver = lambda name: env[name]
+        fd.resolver = resolve_name
         fd.calls['isinstance'] = lambda o, t: isinstance(o, t)
         fd.calls['is_dataclass'] = lambda v: False
         fd.calls['type'] = type
@@ -443,6 +451,26 @@ def r6_equality_symmetry(ctx, sym):
         ctx.check(got == want, 'R6', 'equality_test(%r,%r)' % (a, b), mod, fn,
                   "equality_test(%r, %r) is %s; the documented tolerance/normalisation makes it %s" % (a, b, got, want),
                   "assert_equal(%r, %r)" % (a, b))
+    # the non-default parameters must reach every nested comparison (exact strings, a custom delta)
+    param_cases = []
+    for wrap, label in ((lambda v: v, 'scalar'), (lambda v: [v], 'list'), (lambda v: (v,), 'tuple'),
+                        (lambda v: {'k': v}, 'dict'), (lambda v: [(v,)], 'nested')):
+        param_cases += [((wrap('Hello'), wrap('hello'), True, .001), False, label + ':exact_strings'),
+                        ((wrap('Hello'), wrap('hello'), False, .001), True, label + ':normalised'),
+                        ((wrap(1.0), wrap(1.0005), False, .0001), False, label + ':small-delta'),
+                        ((wrap(1.0), wrap(1.05), False, .1), True, label + ':large-delta')]
+    for args, want, label in param_cases:
+        fd = new_fd()
+        try:
+            got = bool(fd.call_function(fn, list(args)))
+        except Raised as e:
+            got = 'raises ' + e.kind
+        except Inconclusive as e:
+            raise AnalysisError("C07 R6: equality_test outside the decidable fragment on %r: %s" % (args, e))
+        ctx.check(got == want, 'R6', 'equality_test[%s]' % label, mod, fn,
+                  "equality_test(%r, %r, exact_strings=%r, delta=%r) is %s, expected %s: the parameters do not reach "
+                  "the nested comparison" % (args[0], args[1], args[2], args[3], got, want),
+                  "assert_equal(%r, %r, exact_strings=%r, delta=%r)" % args)
     bad = []
     for a, b in pairs:
         res = []
